@@ -747,3 +747,167 @@ pub fn gen_malformed(rng: &mut Rng) -> Vec<TableDef> {
     }
     m
 }
+
+/// C07's equivalence-preserving rewriter: re-spell `t` without changing the schema it describes.
+/// Each rewrite is applied with probability 1/2, so repeated calls cover the combinations.
+pub fn respell_table(rng: &mut Rng, t: &TableDef) -> TableDef {
+    let mut t = t.clone();
+    let Ok(norm) = t.normalize() else { return t };
+    // 1. primary key: inline <-> table level (only when exactly one spelling is present)
+    let has_table_pk = t.constraints.iter().any(|c| matches!(c, TableConstraint::PrimaryKey { .. }));
+    let inline_pk: Vec<usize> = t.columns.iter().enumerate().filter(|(_, c)| matches!(c.primary_key, Some(PrimaryKeySyntax::Bool(true)) | Some(PrimaryKeySyntax::Object(_)))).map(|(i, _)| i).collect();
+    if rng.chance(1, 2) {
+        if !has_table_pk && !inline_pk.is_empty() {
+            // inline -> table level (column order = declaration order, as normalize does)
+            if let Some(TableConstraint::PrimaryKey { auto_increment, columns }) = norm.constraints.iter().find(|c| matches!(c, TableConstraint::PrimaryKey { .. })) {
+                for i in &inline_pk {
+                    t.columns[*i].primary_key = None;
+                }
+                t.constraints.push(TableConstraint::PrimaryKey { auto_increment: *auto_increment, columns: columns.clone() });
+            }
+        } else if has_table_pk && inline_pk.is_empty() {
+            // table level -> inline, only if the key's column order is declaration order
+            if let Some(pos) = t.constraints.iter().position(|c| matches!(c, TableConstraint::PrimaryKey { .. })) {
+                if let TableConstraint::PrimaryKey { auto_increment, columns } = t.constraints[pos].clone() {
+                    let decl: Vec<String> = t.columns.iter().map(|c| c.name.clone()).filter(|n| columns.contains(n)).collect();
+                    let distinct = t.columns.iter().filter(|c| columns.contains(&c.name)).count() == columns.len();
+                    if decl == columns && distinct && !t.constraints.iter().enumerate().any(|(i, c)| i != pos && matches!(c, TableConstraint::PrimaryKey { .. })) {
+                        t.constraints.remove(pos);
+                        for c in t.columns.iter_mut() {
+                            if columns.contains(&c.name) {
+                                c.primary_key = Some(if auto_increment {
+                                    PrimaryKeySyntax::Object(PrimaryKeyDef { auto_increment: true })
+                                } else if rng.chance(1, 2) {
+                                    PrimaryKeySyntax::Bool(true)
+                                } else {
+                                    PrimaryKeySyntax::Object(PrimaryKeyDef { auto_increment: false })
+                                });
+                            }
+                        }
+                    }
+                }
+            }
+        }
+    }
+    // 2. unnamed single-column unique / index: inline true <-> table level
+    for unique in [true, false] {
+        if !rng.chance(1, 2) {
+            continue;
+        }
+        for ci in 0..t.columns.len() {
+            let cn = t.columns[ci].name.clone();
+            let cur = if unique { t.columns[ci].unique.clone() } else { t.columns[ci].index.clone() };
+            let tl = t.constraints.iter().position(|c| match c {
+                TableConstraint::Unique { name: None, columns } if unique => columns.len() == 1 && columns[0] == cn,
+                TableConstraint::Index { name: None, columns } if !unique => columns.len() == 1 && columns[0] == cn,
+                _ => false,
+            });
+            match (cur, tl) {
+                (Some(StrOrBoolOrArray::Bool(true)), None) => {
+                    if unique { t.columns[ci].unique = None } else { t.columns[ci].index = None }
+                    t.constraints.push(if unique {
+                        TableConstraint::Unique { name: None, columns: vec![cn] }
+                    } else {
+                        TableConstraint::Index { name: None, columns: vec![cn] }
+                    });
+                }
+                (None, Some(p)) if t.columns.iter().filter(|c| c.name == cn).count() == 1 => {
+                    t.constraints.remove(p);
+                    if unique { t.columns[ci].unique = Some(StrOrBoolOrArray::Bool(true)) } else { t.columns[ci].index = Some(StrOrBoolOrArray::Bool(true)) }
+                }
+                (Some(StrOrBoolOrArray::Bool(false)), _) if rng.chance(1, 2) => {
+                    if unique { t.columns[ci].unique = None } else { t.columns[ci].index = None }
+                }
+                _ => {}
+            }
+        }
+    }
+    // 3. foreign keys: the three inline spellings <-> table level (unnamed, single column)
+    if rng.chance(1, 2) {
+        for ci in 0..t.columns.len() {
+            let cn = t.columns[ci].name.clone();
+            if t.columns.iter().filter(|c| c.name == cn).count() != 1 {
+                continue;
+            }
+            let has_tl = t.constraints.iter().any(|c| matches!(c, TableConstraint::ForeignKey { columns, .. } if columns.len() == 1 && columns[0] == cn));
+            if let Some(fk) = t.columns[ci].foreign_key.clone() {
+                if has_tl {
+                    continue; // the inline declaration is shadowed; leave as is
+                }
+                let (rt, rcs, od, ou) = match &fk {
+                    ForeignKeySyntax::String(s) => {
+                        let p: Vec<&str> = s.split('.').collect();
+                        (p[0].to_string(), vec![p[1].to_string()], None, None)
+                    }
+                    ForeignKeySyntax::Reference(r) => {
+                        let p: Vec<&str> = r.references.split('.').collect();
+                        (p[0].to_string(), vec![p[1].to_string()], r.on_delete.clone(), r.on_update.clone())
+                    }
+                    ForeignKeySyntax::Object(o) => (o.ref_table.clone(), o.ref_columns.clone(), o.on_delete.clone(), o.on_update.clone()),
+                };
+                let simple = rcs.len() == 1 && !rt.contains('.') && !rcs[0].contains('.') && !rt.is_empty() && !rcs[0].is_empty();
+                match rng.below(4) {
+                    0 if simple && od.is_none() && ou.is_none() => {
+                        t.columns[ci].foreign_key = Some(ForeignKeySyntax::String(format!("{}.{}", rt, rcs[0])));
+                    }
+                    1 if simple => {
+                        t.columns[ci].foreign_key = Some(ForeignKeySyntax::Reference(ReferenceSyntaxDef { references: format!("{}.{}", rt, rcs[0]), on_delete: od, on_update: ou }));
+                    }
+                    2 => {
+                        t.columns[ci].foreign_key = Some(ForeignKeySyntax::Object(ForeignKeyDef { ref_table: rt, ref_columns: rcs, on_delete: od, on_update: ou }));
+                    }
+                    _ => {
+                        t.columns[ci].foreign_key = None;
+                        t.constraints.push(TableConstraint::ForeignKey { name: None, columns: vec![cn], ref_table: rt, ref_columns: rcs, on_delete: od, on_update: ou });
+                    }
+                }
+            }
+        }
+    }
+    // 4. default literals: numeric / boolean <-> string with the same SQL text
+    if rng.chance(1, 2) {
+        for c in t.columns.iter_mut() {
+            c.default = match c.default.clone() {
+                Some(DefaultValue::Integer(n)) => Some(DefaultValue::String(n.to_string())),
+                Some(DefaultValue::Bool(b)) => Some(DefaultValue::String(b.to_string())),
+                Some(DefaultValue::Float(f)) => Some(DefaultValue::String(f.to_string())),
+                Some(DefaultValue::String(s)) => {
+                    if let Ok(n) = s.parse::<i64>() {
+                        if n.to_string() == s { Some(DefaultValue::Integer(n)) } else { Some(DefaultValue::String(s)) }
+                    } else if s == "true" || s == "false" {
+                        Some(DefaultValue::Bool(s == "true"))
+                    } else {
+                        Some(DefaultValue::String(s))
+                    }
+                }
+                None => None,
+            };
+        }
+    }
+    // 5. integer-enum relabelling (name and labels are ORM-only)
+    if rng.chance(1, 2) {
+        for c in t.columns.iter_mut() {
+            if let ColumnType::Complex(ComplexColumnType::Enum { name, values: EnumValues::Integer(vals) }) = &mut c.r#type {
+                if c.default.is_none() {
+                    *name = format!("{}_renamed", name);
+                    for v in vals.iter_mut() {
+                        v.name = format!("{}_x", v.name);
+                    }
+                }
+            }
+        }
+    }
+    // 6. constraint order
+    if rng.chance(1, 2) {
+        rng.shuffle(&mut t.constraints);
+    }
+    t
+}
+
+pub fn respell_models(rng: &mut Rng, m: &[TableDef]) -> Vec<TableDef> {
+    let mut out: Vec<TableDef> = m.iter().map(|t| respell_table(rng, t)).collect();
+    if rng.chance(1, 2) {
+        rng.shuffle(&mut out);
+    }
+    out
+}
